@@ -6,7 +6,10 @@
 //                                          announced on stderr as "@<id>" before it starts, so that a crash
 //                                          (SEGV / ASan / UBSan abort) is attributed to that case by the caller
 //
-// The allocator (CheckAlloc<T>, all instances share one registry, so Alloc() == any other instance):
+// The allocator (CheckAlloc<T>; one registry of live blocks, but every default-constructed instance is its own ARENA: copies and
+// rebound copies keep the arena, two instances compare equal only within one arena, and the type declares none of the
+// propagate_on_container_* traits — the plainest stateful allocator a user can write):
+//   * a block returned through an instance of another arena than the one it came from -> error "wrongarena" (block is released);
 //   * records every allocate(n) as a live block (address -> bytes), numbers allocations per case,
 //     throws std::bad_alloc at allocation number `fault_at` (1-based; 0 = never);
 //   * on deallocate(p,n): p == nullptr -> counted as "nullfree" (harmless, reported separately);
@@ -26,6 +29,8 @@
 
 namespace chk {
   static std::map<void*, size_t> live;
+  static std::map<void*, int> live_arena;
+  static int next_arena = 0;
   static long alloc_count = 0, fault_at = 0, nullfree = 0, faults_thrown = 0;
   static std::vector<std::string> errors;
   static std::map<void*, size_t> live_arr;     // arrays obtained with operator new[] inside remove_key
@@ -33,7 +38,7 @@ namespace chk {
   static void reset(long fa){
     for(auto& kv : live) ::operator delete(kv.first);   // blocks the previous case leaked were reported there; keep LeakSanitizer for the rest
     for(auto& kv : live_arr) free(kv.first);
-    live.clear(); live_arr.clear(); alloc_count = 0; fault_at = fa; nullfree = 0; faults_thrown = 0; errors.clear(); track_arr = false; }
+    live.clear(); live_arena.clear(); live_arr.clear(); alloc_count = 0; fault_at = fa; nullfree = 0; faults_thrown = 0; errors.clear(); track_arr = false; }
   static long live_size(const void* p){ auto it = live.find(const_cast<void*>(p)); return it == live.end() ? -1 : (long)it->second; }
   struct Guard { bool& f; Guard(bool& x) : f(x) { f = true; } ~Guard(){ f = false; } };
   static void* arr_new(size_t bytes){
@@ -65,14 +70,16 @@ template<typename T>
 struct CheckAlloc {
   typedef T value_type;
   template<typename U> struct rebind { typedef CheckAlloc<U> other; };
-  CheckAlloc() {}
-  template<typename U> CheckAlloc(const CheckAlloc<U>&) {}
+  int arena;
+  CheckAlloc() : arena(++chk::next_arena) {}
+  template<typename U> CheckAlloc(const CheckAlloc<U>& o) : arena(o.arena) {}
   T* allocate(size_t n){
     chk::alloc_count++;
     if(chk::fault_at && chk::alloc_count == chk::fault_at){ chk::faults_thrown++; throw std::bad_alloc(); }
     size_t bytes = n * sizeof(T);
     void* p = ::operator new(bytes ? bytes : 1);
     chk::live[p] = bytes;
+    chk::live_arena[p] = arena;
     return static_cast<T*>(p);
   }
   void deallocate(T* p, size_t n){
@@ -84,11 +91,14 @@ struct CheckAlloc {
     }
     if(it->second != n * sizeof(T))
       chk::errors.push_back("sizemismatch:alloc" + std::to_string(it->second) + ":free" + std::to_string(n * sizeof(T)));
+    if(chk::live_arena[(void*)p] != arena)
+      chk::errors.push_back("wrongarena:" + std::to_string(it->second));
+    chk::live_arena.erase((void*)p);
     chk::live.erase(it);
     ::operator delete((void*)p);
   }
-  template<typename U> bool operator==(const CheckAlloc<U>&) const { return true; }
-  template<typename U> bool operator!=(const CheckAlloc<U>&) const { return false; }
+  template<typename U> bool operator==(const CheckAlloc<U>& o) const { return arena == o.arena; }
+  template<typename U> bool operator!=(const CheckAlloc<U>& o) const { return arena != o.arena; }
 };
 
 typedef photospline::splinetable<CheckAlloc<void> > CT;
